@@ -32,7 +32,7 @@ ASSUMPTIONS = [
 
 def level_match(l, name):
     return {"r:.*": True, "r:a": name == "a", "r:a|b": name in ("a", "b"), "r:[^a]": name in ("b", "c"), "r:c": name == "c",
-            "r:a|ab": name in ("a", "ab"), "r:a.*?": name in ("a", "ab")}.get(l, l == name)
+            "r:a|ab": name in ("a", "ab"), "r:a.*?": name in ("a", "ab"), "r:.+": name != ""}.get(l, l == name)
 
 
 def harness():
@@ -40,7 +40,7 @@ def harness():
 
 
 def pstr(p):
-    return "/".join(p) if len(p) else "-"
+    return "/".join(x if x != "" else "~" for x in p) if len(p) else "-"     # "~" stands for an empty level
 
 
 def step_line(g, ei, k):
@@ -256,10 +256,11 @@ def check(pid, tier, seed):
     verdict = common.Verdict(pid)
     exe = harness()
     if tier == "quick":
-        plan = [("quick2", [("plain", sig) for sig in SIGS] + [("conc", "str"), ("conc", "int")]), ("rx", [("plain", "int"), ("conc", "str")])]
+        plan = [("quick2", [("plain", sig) for sig in SIGS] + [("conc", "str"), ("conc", "int")]), ("rx", [("plain", "int"), ("conc", "str")]), ("empty", [("plain", "int"), ("conc", "str")])]
     else:
         plan = [("quick2", [(rt, sig) for rt in ("plain", "conc") for sig in SIGS]), ("quick", [("plain", "istr"), ("conc", "str"), ("plain", "int")]),
-                ("deep", [("plain", "istr"), ("conc", "str")]), ("rx", [(rt, sig) for rt in ("plain", "conc") for sig in ("int", "str", "istr")])]
+                ("deep", [("plain", "istr"), ("conc", "str")]), ("rx", [(rt, sig) for rt in ("plain", "conc") for sig in ("int", "str", "istr")]),
+                ("empty", [(rt, sig) for rt in ("plain", "conc") for sig in ("int", "str")])]
     mcs, dumps, samples = [], [], []
     tot_states = tot_edges = tot_cov = nexec = 0
     trees = set()
